@@ -217,8 +217,15 @@ pub fn gen_getvalues_body(cx: &mut Ctx, max_pair: usize) -> Vec<u8> {
 /// One noise record for the given phase. Returns the record; the models decide what it elicits.
 pub fn gen_noise(cx: &mut Ctx, phase: Phase, own: u16, max_pair: usize) -> Rec {
     let pad = gen_padding(cx);
+    let allow_huge = matches!(phase, Phase::Stream | Phase::Params | Phase::Idle);
     let small = |cx: &mut Ctx| -> Vec<u8> {
-        let l = match cx.ch.weighted(&[4, 3, 1]) { 0 => 0, 1 => cx.ch.range(1, 24), _ => cx.ch.range(25, 300) };
+        // rarely a skipped record near the 16-bit limit (content + padding beyond 65535)
+        let l = match cx.ch.weighted(&[160, 120, 40, if allow_huge { 1 } else { 0 }]) {
+            0 => 0,
+            1 => cx.ch.range(1, 24),
+            2 => cx.ch.range(25, 300),
+            _ => { cx.probe("noise_huge_record"); cx.ch.one_of(&[65281usize, 65300, 65535]) }
+        };
         gen_bytes(cx, l)
     };
     let kind = match phase {
